@@ -576,3 +576,221 @@ package psatoken
 //@   ensures[iff-p1] typeIs(c, *P1Claims) ==> ((ret == nil) == validP1(*c.(*P1Claims)))
 //@   ensures[iff-p2] typeIs(c, *P2Claims) ==> ((ret == nil) == validP2(*c.(*P2Claims)))
 //@   modifies nothing
+
+// ---------------------------------------------------------------- iclaims.go: interface-level contract and gates
+
+// claimsValid(c, h): the verdict of c.Validate() in heap version h, for ANY implementation of
+// IClaims (open world). For the two built-in types its meaning is pinned down by the contracts of
+// (P1Claims).Validate / (P2Claims).Validate (C01).
+//@ ufun claimsValid(c IClaims, h Int) bool
+
+//@ func IClaims.Validate
+//@   option interface=true
+//@   ensures[verdict] (ret == nil) == claimsValid(recv, heapVer())
+//@   modifies nothing
+
+//@ func EncodeClaimsToCBOR
+//@   property C08 C03 C09 C10 C05 C17 C18
+//@   requires em != nil
+//@   ensures[ok] (ret1 == nil) == cborEncOK(c, heapVer())
+//@   ensures[bytes] ret1 == nil ==> bytesVal(ret0) == cborEnc(c, heapVer()) && fresh(ret0)
+//@   ensures[err] ret1 != nil ==> ret0 == nil
+//@   modifies nothing
+
+//@ func ValidateAndEncodeClaimsToCBOR
+//@   property C08 C03 C10 C05 C17 C18
+//@   requires c != nil && em != nil
+//@   ensures[gate] !claimsValid(c, heapVer()) ==> ret0 == nil && ret1 != nil
+//@   ensures[same-ok] claimsValid(c, heapVer()) ==> ((ret1 == nil) == cborEncOK(c, heapVer()))
+//@   ensures[same-bytes] claimsValid(c, heapVer()) && ret1 == nil ==> bytesVal(ret0) == cborEnc(c, heapVer()) && fresh(ret0)
+//@   ensures[err] ret1 != nil ==> ret0 == nil
+//@   modifies nothing
+
+//@ func EncodeClaimsToJSON
+//@   property C08 C12 C05 C17 C18
+//@   ensures[ok] (ret1 == nil) == jsonEncOK(c, heapVer())
+//@   ensures[bytes] ret1 == nil ==> bytesVal(ret0) == jsonEnc(c, heapVer()) && fresh(ret0)
+//@   ensures[err] ret1 != nil ==> ret0 == nil
+//@   modifies nothing
+
+//@ func ValidateAndEncodeClaimsToJSON
+//@   property C08 C12 C05 C17 C18
+//@   requires c != nil
+//@   ensures[gate] !claimsValid(c, heapVer()) ==> ret0 == nil && ret1 != nil
+//@   ensures[same-ok] claimsValid(c, heapVer()) ==> ((ret1 == nil) == jsonEncOK(c, heapVer()))
+//@   ensures[same-bytes] claimsValid(c, heapVer()) && ret1 == nil ==> bytesVal(ret0) == jsonEnc(c, heapVer()) && fresh(ret0)
+//@   ensures[err] ret1 != nil ==> ret0 == nil
+//@   modifies nothing
+
+// ---------------------------------------------------------------- evidence.go
+
+//@ func (*Evidence).SetClaims
+//@   property C08 C19 C05
+//@   requires e != nil && claims != nil
+//@   ensures[gate] !claimsValid(claims, old(heapVer())) ==> ret != nil && e.Claims == old(e.Claims)
+//@   ensures[attach] claimsValid(claims, old(heapVer())) ==> ret == nil && e.Claims == claims
+//@   ensures[message] e.message == old(e.message)
+//@   modifies e.Claims
+
+//@ func (*Evidence).MarshalJSON
+//@   property C12 C08 C05 C17 C18
+//@   requires e != nil
+//@   ensures[ok] (ret1 == nil) == jsonEncOK(e.Claims, heapVer())
+//@   ensures[bytes] ret1 == nil ==> bytesVal(ret0) == jsonEnc(e.Claims, heapVer())
+//@   modifies nothing
+
+// ---------------------------------------------------------------- profile.go, factories
+
+// Register invariant (C07, C16): the default entry and the two built-in names are present with
+// the right implementation and JSON profile member; every entry holds a profile.
+//@ global
+//@   invariant[reg-nonnil] profilesRegister != nil && em != nil && dm != nil
+//@   invariant[reg-default] inDom(profilesRegister, "") && typeIs(profilesRegister[""].Profile, Profile1) && profilesRegister[""].JSONTag == "psa-profile"
+//@   invariant[reg-p1] inDom(profilesRegister, "PSA_IOT_PROFILE_1") && typeIs(profilesRegister["PSA_IOT_PROFILE_1"].Profile, Profile1) && profilesRegister["PSA_IOT_PROFILE_1"].JSONTag == "psa-profile"
+//@   invariant[reg-p2] inDom(profilesRegister, "http://arm.com/psa/2.0.0") && typeIs(profilesRegister["http://arm.com/psa/2.0.0"].Profile, Profile2) && profilesRegister["http://arm.com/psa/2.0.0"].JSONTag == "eat-profile"
+//@   invariant[reg-entries] forallT(k, string, inDom(profilesRegister, k) ==> profilesRegister[k].Profile != nil && (k == "" || profName(profilesRegister[k].Profile) == k) && profilesRegister[k].JSONTag == jsonTagOf(profClaimsType(profilesRegister[k].Profile)))
+
+// Open-world view of a registered profile: its name and the dynamic type of the claims it creates
+// are functions of the IProfile value; the JSON profile member is a function of that claims type.
+//@ ufun profName(p IProfile) string
+//@ ufun profClaimsType(p IProfile) Int
+//@ ufun jsonTagOK(t Int) bool
+//@ ufun jsonTagOf(t Int) string
+
+//@ func IProfile.GetName
+//@   option interface=true
+//@   option also-implementors=true
+//@   ensures[det] ret == profName(recv)
+//@   modifies nothing
+//@   option allocs=none
+
+//@ func IProfile.GetClaims
+//@   option interface=true
+//@   option also-implementors=true
+//@   ensures[fresh] ret != nil && fresh(ret) && dynType(ret) == profClaimsType(recv)
+//@   modifies nothing
+
+//@ func (Profile1).GetName
+//@   property C07 C16 C05 C17 C18
+//@   ensures[name] ret == "PSA_IOT_PROFILE_1"
+//@   modifies nothing
+
+//@ func (Profile2).GetName
+//@   property C07 C16 C05 C17 C18
+//@   ensures[name] ret == "http://arm.com/psa/2.0.0"
+//@   modifies nothing
+
+//@ func (Profile1).GetClaims
+//@   property C07 C16 C05 C17 C18
+//@   ensures[new] typeIs(ret, *P1Claims) && fresh(ret) && specNewP1(*ret.(*P1Claims), true)
+//@   modifies nothing
+
+//@ func (Profile2).GetClaims
+//@   property C07 C16 C05 C17 C18
+//@   ensures[new] typeIs(ret, *P2Claims) && fresh(ret) && specNewP2(*ret.(*P2Claims))
+//@   modifies nothing
+
+//@ func newP1Claims
+//@   property C07 C16 C05 C17 C18
+//@   ensures[new] typeIs(ret, *P1Claims) && fresh(ret) && specNewP1(*ret.(*P1Claims), includeProfile)
+//@   modifies nothing
+
+//@ func newP2Claims
+//@   property C07 C16 C05 C17 C18
+//@   ensures[new] typeIs(ret, *P2Claims) && fresh(ret) && specNewP2(*ret.(*P2Claims))
+//@   modifies nothing
+
+//@ func encoding.GetProfileJSONTag
+//@   trusted reflection walk over the claims struct; its two built-in results are ground obligations, its general behaviour is audited (bounded)
+//@   ensures[ok] (ret1 == nil) == jsonTagOK(dynType(iface))
+//@   ensures[tag] ret1 == nil ==> ret0 == jsonTagOf(dynType(iface))
+//@   modifies nothing
+
+//@ ground[C07,C16,C12] json-tag-p1 : func() bool { t, err := encoding.GetProfileJSONTag(&P1Claims{}); return err == nil && t == "psa-profile" }()
+//@ ground[C07,C16,C12] json-tag-p2 : func() bool { t, err := encoding.GetProfileJSONTag(&P2Claims{}); return err == nil && t == "eat-profile" }()
+
+//@ func registerProfileUnderName
+//@   property C16 C07 C05
+//@   requires profile != nil
+//@   ensures[dup] old(inDom(profilesRegister, name)) ==> ret != nil && mapDom(profilesRegister) == old(mapDom(profilesRegister)) && mapVals(profilesRegister) == old(mapVals(profilesRegister))
+//@   ensures[notag] !old(inDom(profilesRegister, name)) && !jsonTagOK(profClaimsType(profile)) ==> ret != nil && mapDom(profilesRegister) == old(mapDom(profilesRegister)) && mapVals(profilesRegister) == old(mapVals(profilesRegister))
+//@   ensures[add] !old(inDom(profilesRegister, name)) && jsonTagOK(profClaimsType(profile)) ==> ret == nil && inDom(profilesRegister, name) && profilesRegister[name].Profile == profile && profilesRegister[name].JSONTag == jsonTagOf(profClaimsType(profile))
+//@   ensures[others] forallT(k, string, k != name ==> inDom(profilesRegister, k) == old(inDom(profilesRegister, k)) && profilesRegister[k] == old(profilesRegister[k]))
+//@   ensures[same-map] profilesRegister == old(profilesRegister)
+//@   ensures[builtin-types] ret == nil ==> (typeIs(profile, Profile1) ==> profClaimsType(profile) == typeTag(*P1Claims)) && (typeIs(profile, Profile2) ==> profClaimsType(profile) == typeTag(*P2Claims))
+//@   modifies mapOf(profilesRegister)
+
+//@ func registerDefaultProfile
+//@   property C16 C07 C05
+//@   requires p != nil
+//@   ensures[dup] old(inDom(profilesRegister, "")) ==> ret != nil && mapDom(profilesRegister) == old(mapDom(profilesRegister)) && mapVals(profilesRegister) == old(mapVals(profilesRegister))
+//@   ensures[add] !old(inDom(profilesRegister, "")) && jsonTagOK(profClaimsType(p)) ==> ret == nil && inDom(profilesRegister, "") && profilesRegister[""].Profile == p && profilesRegister[""].JSONTag == jsonTagOf(profClaimsType(p))
+//@   ensures[others] forallT(k, string, k != "" ==> inDom(profilesRegister, k) == old(inDom(profilesRegister, k)) && profilesRegister[k] == old(profilesRegister[k]))
+//@   ensures[same-map] profilesRegister == old(profilesRegister)
+//@   ensures[notag] !old(inDom(profilesRegister, "")) && !jsonTagOK(profClaimsType(p)) ==> ret != nil && mapDom(profilesRegister) == old(mapDom(profilesRegister)) && mapVals(profilesRegister) == old(mapVals(profilesRegister))
+//@   ensures[builtin-types] ret == nil ==> (typeIs(p, Profile1) ==> profClaimsType(p) == typeTag(*P1Claims)) && (typeIs(p, Profile2) ==> profClaimsType(p) == typeTag(*P2Claims))
+//@   modifies mapOf(profilesRegister)
+
+//@ func RegisterProfile
+//@   property C16 C07 C05
+//@   requires p != nil
+//@   ensures[dup] old(inDom(profilesRegister, profName(p))) ==> ret != nil && mapDom(profilesRegister) == old(mapDom(profilesRegister)) && mapVals(profilesRegister) == old(mapVals(profilesRegister))
+//@   ensures[notag] !old(inDom(profilesRegister, profName(p))) && !jsonTagOK(profClaimsType(p)) ==> ret != nil && mapDom(profilesRegister) == old(mapDom(profilesRegister)) && mapVals(profilesRegister) == old(mapVals(profilesRegister))
+//@   ensures[add] !old(inDom(profilesRegister, profName(p))) && jsonTagOK(profClaimsType(p)) ==> ret == nil && inDom(profilesRegister, profName(p)) && profilesRegister[profName(p)].Profile == p && profilesRegister[profName(p)].JSONTag == jsonTagOf(profClaimsType(p))
+//@   ensures[others] forallT(k, string, k != profName(p) ==> inDom(profilesRegister, k) == old(inDom(profilesRegister, k)) && profilesRegister[k] == old(profilesRegister[k]))
+//@   ensures[same-map] profilesRegister == old(profilesRegister)
+//@   ensures[builtin-types] ret == nil ==> (typeIs(p, Profile1) ==> profClaimsType(p) == typeTag(*P1Claims)) && (typeIs(p, Profile2) ==> profClaimsType(p) == typeTag(*P2Claims))
+//@   ensures[builtin-names] (typeIs(p, Profile1) ==> profName(p) == "PSA_IOT_PROFILE_1") && (typeIs(p, Profile2) ==> profName(p) == "http://arm.com/psa/2.0.0")
+//@   modifies mapOf(profilesRegister)
+
+//@ func NewClaims
+//@   property C07 C16 C05 C17 C18
+//@   ensures[unknown] !inDom(profilesRegister, profile) ==> ret0 == nil && ret1 != nil
+//@   ensures[known] inDom(profilesRegister, profile) ==> ret1 == nil && ret0 != nil && fresh(ret0) && dynType(ret0) == profClaimsType(profilesRegister[profile].Profile)
+//@   ensures[p1] profile == "" || profile == "PSA_IOT_PROFILE_1" ==> ret1 == nil && typeIs(ret0, *P1Claims) && specNewP1(*ret0.(*P1Claims), true)
+//@   ensures[p2] profile == "http://arm.com/psa/2.0.0" ==> ret1 == nil && typeIs(ret0, *P2Claims) && specNewP2(*ret0.(*P2Claims))
+//@   modifies nothing
+
+// ---------------------------------------------------------------- cbor.go and the initialisers
+
+//@ axiom[ground json-tag-p1] jsonTagOK(typeTag(*P1Claims)) && jsonTagOf(typeTag(*P1Claims)) == "psa-profile"
+//@ axiom[ground json-tag-p2] jsonTagOK(typeTag(*P2Claims)) && jsonTagOf(typeTag(*P2Claims)) == "eat-profile"
+
+//@ func initCBOREncMode
+//@   property C04 C09 C10 C06 C05
+//@   ensures[mode] ret1 == nil ==> ret0 != nil
+//@   modifies nothing
+
+//@ func initCBORDecMode
+//@   property C04 C09 C10 C06 C05
+//@   ensures[mode] ret1 == nil ==> ret0 != nil
+//@   modifies nothing
+
+//@ func init#1
+//@   property C05 C04 C10
+//@   option may-panic
+//@   ensures[ok] emError == nil && dmError == nil
+//@   modifies nothing
+
+//@ func init#2
+//@   property C07 C16 C05
+//@   option may-panic
+//@   requires profilesRegister != nil && !inDom(profilesRegister, "") && !inDom(profilesRegister, "PSA_IOT_PROFILE_1")
+//@   ensures[default] inDom(profilesRegister, "") && typeIs(profilesRegister[""].Profile, Profile1) && profilesRegister[""].JSONTag == "psa-profile"
+//@   ensures[p1] inDom(profilesRegister, "PSA_IOT_PROFILE_1") && typeIs(profilesRegister["PSA_IOT_PROFILE_1"].Profile, Profile1) && profilesRegister["PSA_IOT_PROFILE_1"].JSONTag == "psa-profile" && profName(profilesRegister["PSA_IOT_PROFILE_1"].Profile) == "PSA_IOT_PROFILE_1" && profClaimsType(profilesRegister["PSA_IOT_PROFILE_1"].Profile) == typeTag(*P1Claims) && profClaimsType(profilesRegister[""].Profile) == typeTag(*P1Claims)
+//@   ensures[others] forallT(k, string, k != "" && k != "PSA_IOT_PROFILE_1" ==> inDom(profilesRegister, k) == old(inDom(profilesRegister, k)) && profilesRegister[k] == old(profilesRegister[k]))
+//@   ensures[same-map] profilesRegister == old(profilesRegister)
+//@   modifies mapOf(profilesRegister)
+
+//@ func init#3
+//@   property C07 C16 C05
+//@   option may-panic
+//@   requires profilesRegister != nil && !inDom(profilesRegister, "http://arm.com/psa/2.0.0")
+//@   ensures[p2] inDom(profilesRegister, "http://arm.com/psa/2.0.0") && typeIs(profilesRegister["http://arm.com/psa/2.0.0"].Profile, Profile2) && profilesRegister["http://arm.com/psa/2.0.0"].JSONTag == "eat-profile" && profName(profilesRegister["http://arm.com/psa/2.0.0"].Profile) == "http://arm.com/psa/2.0.0" && profClaimsType(profilesRegister["http://arm.com/psa/2.0.0"].Profile) == typeTag(*P2Claims)
+//@   ensures[others] forallT(k, string, k != "http://arm.com/psa/2.0.0" ==> inDom(profilesRegister, k) == old(inDom(profilesRegister, k)) && profilesRegister[k] == old(profilesRegister[k]))
+//@   ensures[same-map] profilesRegister == old(profilesRegister)
+//@   modifies mapOf(profilesRegister)
+
+//@ func init
+//@   property C13 C07 C16 C05 C04 C10 C17
+//@   modifies ErrMissingOptional, ErrMissingMandatory, ErrNotInProfile, ErrWrongProfile, ErrWrongSyntax, ErrOptionalClaimMissing, ErrMandatoryClaimMissing, ErrClaimNotInProfile, ErrOptionalFieldMissing, ErrMandatoryFieldMissing, ErrFieldNotInProfile, em, emError, dm, dmError, profilesRegister, CertificationReferenceP1RE, CertificationReferenceP2RE, globalsWithPrefix("test")
